@@ -332,3 +332,84 @@ def scan(repo):
         if "fdump" in seg and any(re.search(w, seg) for w in CPPCHECK_WINDOWS):
             scan_function("CppCheck::check*", seg + ";", writers, unknown)
     return writers, unknown, missing
+
+
+# ---- enum printers: the finitely many literals an `enum` writer can return ---------------------------------------------
+
+ENUM_FUNCS = [
+    # (name used in the evidence / Gen table, file, header regex)
+    ("scopeTypeToString", "lib/symboldatabase.cpp", r"static\s+std::string\s+scopeTypeToString\s*\(ScopeType\s+type\)\s*\{"),
+    ("accessControlToString", "lib/symboldatabase.cpp", r"static\s+std::string\s+accessControlToString\s*\(AccessControl\s+access\)\s*\{"),
+    ("functionTypeToString", "lib/symboldatabase.cpp", r"static\s+const\s+char\s*\*\s*functionTypeToString\s*\(FunctionType\s+type\)\s*\{"),
+    ("Value::toString(MoveKind)", "lib/vfvalue.cpp", r"const\s+char\s*\*\s*Value::toString\s*\(MoveKind\s+moveKind\)\s*\{"),
+    ("Value::toString(LifetimeKind)", "lib/vfvalue.cpp", r"const\s+char\s*\*\s*Value::toString\s*\(LifetimeKind\s+lifetimeKind\)\s*\{"),
+    ("Value::toString(LifetimeScope)", "lib/vfvalue.cpp", r"const\s+char\s*\*\s*Value::toString\s*\(LifetimeScope\s+lifetimeScope\)\s*\{"),
+    ("Value::toString(Bound)", "lib/vfvalue.cpp", r"const\s+char\s*\*\s*Value::toString\s*\(Bound\s+bound\)\s*\{"),
+    ("Container::toString(Yield)", "lib/library.cpp", r"std::string\s+Library::Container::toString\s*\(Library::Container::Yield\s+yield\)\s*\{"),
+    ("Container::toString(Action)", "lib/library.cpp", r"std::string\s+Library::Container::toString\s*\(Library::Container::Action\s+action\)\s*\{"),
+    ("Platform::toString(Type)", "lib/platform.h", r"static\s+const\s+char\s*\*\s*toString\s*\(Type\s+pt\)\s*\{"),
+    ("Standards::getC(cstd_t)", "lib/standards.cpp", r"std::string\s+Standards::getC\s*\(cstd_t\s+c_std\)\s*\{"),
+    ("Standards::getCPP(cppstd_t)", "lib/standards.cpp", r"std::string\s+Standards::getCPP\s*\(cppstd_t\s+std\)\s*\{"),
+]
+# no-argument wrappers used by the dump code must delegate to the scanned printer
+ENUM_WRAPPERS = [
+    ("lib/platform.h", r"const\s+char\s*\*\s*toString\s*\(\)\s*const\s*\{", r"^\s*return\s+toString\(type\);\s*$"),
+    ("lib/standards.cpp", r"std::string\s+Standards::getC\s*\(\)\s*const\s*\{", r"^\s*return\s+getC\(c\);\s*$"),
+    ("lib/standards.cpp", r"std::string\s+Standards::getCPP\s*\(\)\s*const\s*\{", r"^\s*return\s+getCPP\(cpp\);\s*$"),
+]
+
+
+def scan_enums(repo):
+    """-> ({name: [literal, ...]}, problems).  Every statement of a printer must be `switch`, `case X:`, `return "lit";`,
+    `cppcheck::unreachable();` (fail closed)."""
+    table, problems, cache = {}, [], {}
+    for name, f, hdr in ENUM_FUNCS:
+        if f not in cache:
+            cache[f] = strip_comments(open(os.path.join(repo, f), encoding="utf-8", errors="replace").read())
+        body = body_of(cache[f], hdr)
+        if body is None:
+            problems.append("%s: printer %s not found" % (f, name)); continue
+        lits = []
+        for seg in segments(body):
+            seg0 = re.sub(r"^(?:(?:case\s+[\w:]+\s*:(?!:)|default\s*:)\s*)+", "", seg).strip()
+            if not seg0 or re.match(r"^switch\s*\([\w:]+\)$", seg0) or seg0 in ("cppcheck::unreachable()", "break"):
+                continue
+            m = re.match(r'^return\s+("(?:[^"\\]|\\.)*")$', seg0)
+            if m:
+                lits.append(unquote(m.group(1))); continue
+            problems.append("%s: %s: statement that is not `return \"literal\"`: %s" % (f, name, seg0[:80]))
+        if not lits:
+            problems.append("%s: %s returns no literal" % (f, name))
+        table[name] = lits
+    for f, hdr, want in ENUM_WRAPPERS:
+        if f not in cache:
+            cache[f] = strip_comments(open(os.path.join(repo, f), encoding="utf-8", errors="replace").read())
+        body = body_of(cache[f], hdr)
+        if body is None or not re.match(want, body.strip().rstrip(";") + ";", re.S):
+            problems.append("%s: wrapper %s does not delegate to the scanned printer" % (f, hdr[:40]))
+    return table, problems
+
+
+def lean_chars(s):
+    def ch(c):
+        if c == "'":
+            return "'\\''"
+        if c == "\\":
+            return "'\\\\'"
+        if 32 <= ord(c) < 127:
+            return "'%s'" % c
+        return "Char.ofNat %d" % ord(c)
+    return "[" + ", ".join(ch(c) for c in s) + "]"
+
+
+def gen_enums_text(table):
+    out = ["/- GENERATED by vlib/props/c14_writers.py from the enum printers the dump code calls - do not edit -/",
+           "namespace Cppcheck.Gen.DumpEnums", "",
+           "/-- printer ↦ every string it can return -/",
+           "def enumLiterals : List (String × List (List Char)) := ["]
+    rows = []
+    for name in sorted(table):
+        rows.append('  ("%s", [%s])' % (name, ", ".join(lean_chars(l) for l in table[name])))
+    out.append(",\n".join(rows))
+    out += ["]", "", "end Cppcheck.Gen.DumpEnums", ""]
+    return "\n".join(out)
